@@ -54,13 +54,22 @@ def _case(draw):
         ws = [g.get("width", 0) for g in spec["glyphs"]]
         spec["info"]["postscriptDefaultWidthX"] = draw(st.sampled_from(ws + [0, 500, 499.5]))
         spec["info"]["postscriptNominalWidthX"] = draw(st.sampled_from(ws + [0, 500, 250.5, 300.25]))
+    opt = draw(st.sampled_from([0, 0, 1, 2]))
+    if opt == 0 and draw(st.integers(0, 3)) == 0:
+        # a contour of a single point (a stray point, or a UFO2-style anchor): kept as a bare moveto when the charstrings are not specialised
+        # (with optimizeCFF >= 1 the specialiser drops it, so the class is drawn for level 0 only)
+        simple = [g for g in spec["glyphs"] if g.get("contours") and not g.get("components")]
+        if simple:
+            g = draw(st.sampled_from(simple))
+            g["contours"] = list(g["contours"]) + [[[draw(st.integers(-200, 800)), draw(st.integers(-200, 800)), "line"]]]
+            extra["one_point_contour"] = g["name"]
     return {
         **extra,
         "spec": spec,
         "module": draw(st.sampled_from(["ufoLib2", "defcon"])),
         "tol": draw(st.sampled_from([None, 0.5, 0, 0.25])),
         "cff": draw(st.sampled_from([1, 2])),
-        "opt": draw(st.sampled_from([0, 0, 1, 2])),
+        "opt": opt,
     }
 
 
@@ -360,6 +369,8 @@ def run_case(case, ctx):
     ctx.label("opt=%d" % opt)
     ctx.label("cff%d" % ver)
     ctx.label("tol=%s" % tol)
+    if case.get("one_point_contour"):
+        ctx.label("one-point-contour")
 
 
 MANIFEST = {
